@@ -1306,7 +1306,9 @@ def f_float_arith(c):
     if nm == 'sqrt' and len(c.P) == 1 and c.RT.ct == t.ct:
         fn = 'avm_sqrtf' if t.bits == 32 else 'avm_sqrt'
         ens = [('sqrt lane %d' % i, same_bits(t, t.lane(RV, i), fbits(t, '%s(%s)' % (fn, fval(t, a0, i))))) for i in range(t.W)]
-        return Contract('float_sqrt', ['C10'] + sc, ensures=ens, cxx='avel::sqrt({0})', setup=RM_SETUP)
+        k = Contract('float_sqrt', ['C10'] + sc, ensures=ens, cxx='avel::sqrt({0})', setup=RM_SETUP)
+        k.replay_lattice = [2.0, 3.0, 0.1, 1e30, 1e-30, 7.0]      # operands with an inexact root (see vlib/replay.py)
+        return k
     # ---- C11
     if nm in ('ceil', 'floor', 'trunc', 'round', 'nearbyint', 'rint') and len(c.P) == 1 and c.RT.ct == t.ct:
         sp = 'spec_%s%s' % ('nearbyint' if nm == 'rint' else nm, fsuf(t))
